@@ -434,12 +434,26 @@ func (e *Env) evalBinary(n EBinary) tv {
 	c := e.c
 	boolT := types.Typ[types.Bool]
 	switch n.Op {
+	// short-circuit on guards that are decided while the expression is built (event counts are concrete
+	// numbers): `evcount("E") == 1 ==> ... evres("E") ...` does not evaluate evres when there is no E
 	case "&&":
-		return tv{Sc{T: And(e.evalBool(n.X), e.evalBool(n.Y))}, boolT}
+		x := e.evalBool(n.X)
+		if x.S == "false" {
+			return tv{Sc{T: False}, boolT}
+		}
+		return tv{Sc{T: And(x, e.evalBool(n.Y))}, boolT}
 	case "||":
-		return tv{Sc{T: Or(e.evalBool(n.X), e.evalBool(n.Y))}, boolT}
+		x := e.evalBool(n.X)
+		if x.S == "true" {
+			return tv{Sc{T: True}, boolT}
+		}
+		return tv{Sc{T: Or(x, e.evalBool(n.Y))}, boolT}
 	case "==>":
-		return tv{Sc{T: Implies(e.evalBool(n.X), e.evalBool(n.Y))}, boolT}
+		x := e.evalBool(n.X)
+		if x.S == "false" {
+			return tv{Sc{T: True}, boolT}
+		}
+		return tv{Sc{T: Implies(x, e.evalBool(n.Y))}, boolT}
 	case "<==>":
 		return tv{Sc{T: Eq(e.evalBool(n.X), e.evalBool(n.Y))}, boolT}
 	}
